@@ -114,6 +114,7 @@ pub static C02_META: PropMeta = PropMeta {
 
 fn c02_profiles() -> Vec<(&'static str, Profile, u32, u32)> {
     let mut p = Profile::base();
+    p.k_comp = 2;
     p.k_probe = 1;
     p.probe_lifecycle_pct = 0;
     p.k_gen = 7;
@@ -154,6 +155,7 @@ pub static C05_META: PropMeta = PropMeta {
 
 fn c05_profiles() -> Vec<(&'static str, Profile, u32, u32)> {
     let mut p = Profile::base();
+    p.k_comp = 2;
     p.k_timer = 10;
     p.k_ping = 4;
     p.k_chan = 1;
@@ -198,6 +200,7 @@ pub static C06_META: PropMeta = PropMeta {
 
 fn c06_profiles() -> Vec<(&'static str, Profile, u32, u32)> {
     let mut p = Profile::base();
+    p.k_comp = 2;
     p.o_insert = 10;
     p.o_token = 14;
     p.o_handle = 5;
@@ -234,6 +237,7 @@ pub static C07_META: PropMeta = PropMeta {
 
 fn c07_profiles() -> Vec<(&'static str, Profile, u32, u32)> {
     let mut p = Profile::base();
+    p.k_comp = 2;
     p.o_token = 16;
     p.o_cause = 12;
     p.o_insert = 5;
@@ -269,6 +273,7 @@ pub static C08_META: PropMeta = PropMeta {
 
 fn c08_profiles() -> Vec<(&'static str, Profile, u32, u32)> {
     let mut p = Profile::base();
+    p.k_comp = 2;
     p.max_cb_ops = 5;
     p.max_depth = 3;
     p.o_insert = 8;
@@ -310,6 +315,7 @@ pub static C09_META: PropMeta = PropMeta {
 
 fn c09_profiles() -> Vec<(&'static str, Profile, u32, u32)> {
     let mut p = Profile::base();
+    p.k_comp = 2;
     p.post_pct = 45;
     p.err_pct = 8;
     p.o_token = 12;
@@ -434,6 +440,7 @@ pub static C15_META: PropMeta = PropMeta {
 
 fn c15_profiles() -> Vec<(&'static str, Profile, u32, u32)> {
     let mut p = Profile::base();
+    p.k_comp = 1;
     p.k_probe = 8;
     p.probe_lifecycle_pct = 60;
     p.o_fail = 10;
@@ -477,6 +484,7 @@ pub static C16_META: PropMeta = PropMeta {
 
 fn c16_profiles() -> Vec<(&'static str, Profile, u32, u32)> {
     let mut p = Profile::base();
+    p.k_comp = 3;
     p.k_gen = 10;
     p.k_timer = 0;
     p.k_probe = 1;
